@@ -32,21 +32,28 @@ import (
 const (
 	victimZone = "victim.test."
 	evilZone   = "evil.test."
+	// a second attacker zone delegated across an empty non-terminal (the jp / co.jp shape):
+	// test. delegates evil.co.test. and victim.co.test. directly, co.test. is no zone of its own
+	evilCoZone   = "evil.co.test."
+	victimCoZone = "victim.co.test."
 )
 
 var forgedIP = net.IPv4(198, 18, 66, 66)
 
 type sysState struct {
-	w       *l3.World
-	p       *l3.Pipe
-	victim  *l3.Zone
-	evil    *l3.Zone
-	vsrv    *l3.Server
-	esrv    *l3.Server
-	trap    *l3.Server
-	trapIP  net.IP
-	localIP net.IP // one local-interface address (nil when the box has none besides loopback)
-	mode    string // "cold" | "warm"
+	w      *l3.World
+	p      *l3.Pipe
+	victim *l3.Zone
+	evil   *l3.Zone
+	vsrv   *l3.Server
+	esrv   *l3.Server   // computes the attacker zone's honest answers (never contacted directly)
+	front  *frontServer // the attacker's real sockets
+	// scripts that answer a stream query with several frames / depend on the connection's history
+	frameScripts map[string]func(req *dns.Msg, honest *dns.Msg, tcp bool, connQueries int) []*dns.Msg
+	trap         *l3.Server
+	trapIP       net.IP
+	localIP      net.IP // one local-interface address (nil when the box has none besides loopback)
+	mode         string // "cold" | "warm"
 	// per-query scripts of the attacker, keyed by lower-cased qname
 	scripts map[string]func(q dns.Question, honest *dns.Msg) *dns.Msg
 	// scripts that see the transport: UDP answers TC=1, the scripted reply waits on the TCP leg
@@ -56,6 +63,8 @@ type sysState struct {
 	asked    map[string]bool // client questions issued so far ("name/type")
 	mu       sync.RWMutex
 	lastTags string
+	ecIP     net.IP
+	raceRan  bool
 	nsHosts  map[string]bool // name-server host names the attacker's referrals mentioned
 }
 
@@ -77,6 +86,7 @@ func sysClose() {
 	if sys != nil {
 		sys.p.Close()
 		sys.w.Close()
+		sys.front.Close()
 		sys = nil
 	}
 }
@@ -110,7 +120,7 @@ func fakeSig(rr dns.RR, signer string) dns.RR {
 	}
 }
 
-func sysNew(mode string, qmin int, sec bool) {
+func sysNew(mode string, qmin int, sec, ka bool) {
 	sysClose()
 	w := l3.NewWorld(sec)
 	// a trap server stands behind loopback / local-interface addresses: the
@@ -137,11 +147,14 @@ func sysNew(mode string, qmin int, sec bool) {
 	for i := 1; i <= 8; i++ {
 		v.Add(fmt.Sprintf("h%d.victim.test. 300 IN A 198.18.0.%d", i, 100+i))
 	}
+	vc := w.AddZone(victimCoZone, l3.ZoneOpts{Signed: sec, PublishDS: sec})
+	vc.Add("www.victim.co.test. 300 IN A 198.18.0.90")
+	ec := w.AddZone(evilCoZone, l3.ZoneOpts{})
 	e := w.AddZone(evilZone, l3.ZoneOpts{})
 	e.Add("a.evil.test. 300 IN A 198.18.1.1", "d.evil.test. 300 IN DNAME victim.test.", "c.evil.test. 300 IN CNAME a.evil.test.")
 	s := &sysState{w: w, victim: v, evil: e, vsrv: v.Servers[0], esrv: e.Servers[0], trap: trap, trapIP: trap.IP, localIP: local, mode: mode,
-		scripts: map[string]func(dns.Question, *dns.Msg) *dns.Msg{}, tcpScripts: map[string]func(dns.Question, *dns.Msg, bool) *dns.Msg{}, spoof: map[string]func(*dns.Msg) []*dns.Msg{}, asked: map[string]bool{}, nsHosts: map[string]bool{}}
-	s.esrv.SetBehaviour(l3.Behaviour{Tamper: func(q dns.Question, honest *dns.Msg, tcp bool) *dns.Msg {
+		scripts: map[string]func(dns.Question, *dns.Msg) *dns.Msg{}, tcpScripts: map[string]func(dns.Question, *dns.Msg, bool) *dns.Msg{}, frameScripts: map[string]func(*dns.Msg, *dns.Msg, bool, int) []*dns.Msg{}, spoof: map[string]func(*dns.Msg) []*dns.Msg{}, asked: map[string]bool{}, nsHosts: map[string]bool{}}
+	tamper := func(q dns.Question, honest *dns.Msg, tcp bool) *dns.Msg {
 		name := lcn(q.Name)
 		s.mu.RLock()
 		f, ok := s.scripts[name]
@@ -170,7 +183,26 @@ func sysNew(mode string, qmin int, sec bool) {
 			return m
 		}
 		return honest
-	}})
+	}
+	s.front = newFrontServer(func(req *dns.Msg, tcp bool, connQueries int) []*dns.Msg {
+		honest := s.esrv.Honest(req)
+		if oInside(evilCoZone, lcn(req.Question[0].Name)) {
+			honest = ec.Servers[0].Honest(req)
+		}
+		s.mu.RLock()
+		ff, ok := s.frameScripts[lcn(req.Question[0].Name)]
+		s.mu.RUnlock()
+		if ok {
+			return ff(req, honest, tcp, connQueries)
+		}
+		if m := tamper(req.Question[0], honest, tcp); m != nil {
+			return []*dns.Msg{m}
+		}
+		return nil
+	})
+	w.AddrMap[net.JoinHostPort(s.esrv.IP.String(), "53")] = s.front.addr
+	w.AddrMap[net.JoinHostPort(ec.Servers[0].IP.String(), "53")] = s.front.addr
+	s.ecIP = ec.Servers[0].IP
 	s.vsrv.SetBehaviour(l3.Behaviour{Pre: func(req *dns.Msg) []*dns.Msg {
 		if len(req.Question) != 1 {
 			return nil
@@ -183,12 +215,17 @@ func sysNew(mode string, qmin int, sec bool) {
 		}
 		return nil
 	}})
-	s.p = l3.NewPipe(w, l3.PipeOpts{DNSSEC: sec, Tweak: func(cfg *config.Config) { cfg.QnameMinLevel = qmin }})
+	s.p = l3.NewPipe(w, l3.PipeOpts{DNSSEC: sec, Tweak: func(cfg *config.Config) {
+		cfg.QnameMinLevel = qmin
+		cfg.TCPKeepalive = ka // pooled (edns-tcp-keepalive) TCP connections to servers asked a two-label name
+	}})
 	sys = s
 }
 
 // inAttackerZone: the attacker is authoritative for it, whatever he says there is his to say.
-func inAttackerZone(owner string) bool { return oInside(evilZone, lcn(owner)) }
+func inAttackerZone(owner string) bool {
+	return oInside(evilZone, lcn(owner)) || oInside(evilCoZone, lcn(owner))
+}
 
 // genuine: rr is something a zone of the world that holds its owner really
 // publishes - a published record, or a signature made with that zone's key.
@@ -269,7 +306,9 @@ func (s *sysState) cached(name string, t uint16) *dns.Msg {
 
 // clientQuery sends one client query and notes it.
 func (s *sysState) clientQuery(name string, t uint16) *dns.Msg {
+	s.mu.Lock()
 	s.asked[fmt.Sprintf("%s/%d", lcn(name), t)] = true
+	s.mu.Unlock()
 	return s.p.Query(name, t, l3.Flags{})
 }
 
@@ -310,13 +349,13 @@ func (s *sysState) audit() string {
 	// 1. nothing the attacker's server was asked concerns the victim zone
 	for _, v := range victimNames {
 		for _, t := range []uint16{dns.TypeA, dns.TypeAAAA, dns.TypeNS, dns.TypeMX, dns.TypeTXT, dns.TypeSOA, dns.TypeCNAME, dns.TypeDS} {
-			if s.esrv.Asked(v.n, t) > 0 {
+			if s.front.Asked(v.n, t) > 0 {
 				return fail("l3/audit/victim-name-asked-at-attacker", "%s/%d", v.n, t)
 			}
 		}
 	}
 	for i := 1; i <= 8; i++ {
-		if n := fmt.Sprintf("h%d.victim.test.", i); s.esrv.Asked(n, dns.TypeA) > 0 {
+		if n := fmt.Sprintf("h%d.victim.test.", i); s.front.Asked(n, dns.TypeA) > 0 {
 			return fail("l3/audit/victim-name-asked-at-attacker", "%s", n)
 		}
 	}
@@ -412,6 +451,9 @@ func (s *sysState) audit() string {
 			if _, ok := sets[dns.TypeA]; !ok {
 				continue
 			}
+			if s.raceRan && owner == "ns1."+victimCoZone {
+				continue // judged by the race shape itself, under its own signature
+			}
 			v4, _ := resolver.VerifC07GlueCached(s.p.Resolver, owner)
 			for _, a := range v4 {
 				okAddr := false
@@ -448,6 +490,14 @@ func (s *sysState) audit() string {
 // attack installs the script for shape, sends the triggering client query and
 // judges the reply. k makes the names distinct inside one world.
 func (s *sysState) attack(shape string, k int) (string, string) {
+	// "<shape>.<mod>": the same scripted reply under another header rcode, with or without an SOA
+	shape, mod, _ := strings.Cut(shape, ".")
+	var preStep func()
+	// between two attacks the attacker waits out the resolver's back-off: five minutes pass for the
+	// RFC 9520 failure cache and the circuit breaker (and only for them - record TTLs are not aged),
+	// otherwise one failed attempt would shield every later shape of the world from reaching the wire
+	cache.VerifC07AgeFailures(s.p.Cache, 5*time.Minute+time.Second)
+	resolver.VerifC07AgeBreaker(s.p.Resolver, 31*time.Second)
 	evilIP := s.esrv.IP
 	qn := fmt.Sprintf("q%d.evil.test.", k)
 	sub := fmt.Sprintf("sub%d.evil.test.", k)
@@ -804,11 +854,105 @@ func (s *sysState) attack(shape string, k int) (string, string) {
 			}
 			return []*dns.Msg{m}
 		}
+	// ---- two client queries racing through one multi-label delegation: the second finds the delegation
+	// the first has just cached (the cache hit INSIDE processDelegation) and goes on from there; the
+	// attacker then refers it on with glue for the sibling victim zone's name server
+	case "race-cached-delegation":
+		cz := fmt.Sprintf("c%d.%s", k, evilCoZone)
+		x, y := "x."+cz, "y."+cz
+		s.scripts[lcn(x)] = func(q dns.Question, honest *dns.Msg) *dns.Msg {
+			m := base(q, honest)
+			m.Answer = []dns.RR{rrA(q.Name, net.IPv4(198, 18, 1, 88))}
+			return m
+		}
+		s.scripts[lcn(y)] = func(q dns.Question, honest *dns.Msg) *dns.Msg {
+			m := base(q, honest)
+			m.Authoritative = false
+			m.Ns = []dns.RR{rrNS(cz, "ns1."+victimCoZone, dns.ClassINET)}
+			withOpt(m, rrA("ns1."+victimCoZone, s.ecIP))
+			return m
+		}
+		parent := s.w.Zones["test."].Servers[0]
+		parent.SetBehaviour(l3.Behaviour{Delay: func(q dns.Question, tcp bool) time.Duration {
+			if strings.HasPrefix(lcn(q.Name), "y.") {
+				return 150 * time.Millisecond
+			}
+			return 0
+		}})
+		trigger = y
+		s.raceRan = true
+		preStep = func() {
+			done := make(chan struct{})
+			go func() { s.clientQuery(x, dns.TypeA); close(done) }()
+			s.clientQuery(y, dns.TypeA)
+			<-done
+			parent.SetBehaviour(l3.Behaviour{})
+		}
+	// ---- a kept-alive (pooled) stream: a stale frame with another ID, then a forged frame
+	case "pool-stale-then-forged", "pool-stale-then-forged-rightid", "pool-stale-then-referral":
+		trigger = evilZone
+		qtype = dns.TypeMX
+		s.frameScripts[lcn(evilZone)] = func(req *dns.Msg, honest *dns.Msg, tcp bool, connQueries int) []*dns.Msg {
+			q := req.Question[0]
+			if q.Qtype != dns.TypeTXT && q.Qtype != dns.TypeMX {
+				return []*dns.Msg{honest}
+			}
+			if !tcp {
+				m := base(q, honest)
+				m.Truncated = true
+				return []*dns.Msg{m}
+			}
+			if q.Qtype == dns.TypeTXT {
+				return []*dns.Msg{honest} // the exchange that parks the connection
+			}
+			stale := honest.Copy()
+			stale.Id = req.Id ^ 0x1111
+			forged := base(q, honest)
+			forged.Id = req.Id ^ 0x2222
+			if shape == "pool-stale-then-forged-rightid" {
+				forged.Id = req.Id
+			}
+			forged.Question[0].Name = victimZone
+			forged.Answer = []dns.RR{&dns.MX{Hdr: dns.RR_Header{Name: victimZone, Rrtype: dns.TypeMX, Class: dns.ClassINET, Ttl: 300}, Preference: 1, Mx: "mail.evil.test."}}
+			if shape == "pool-stale-then-referral" {
+				forged.Authoritative = false
+				forged.Answer = nil
+				forged.Question[0].Name = "x.victim.test."
+				forged.Ns = []dns.RR{rrNS("sub.evil.test.", "ns1.victim.test.", dns.ClassINET)}
+				forged.Extra = append([]dns.RR{rrA("ns1.victim.test.", evilIP)}, forged.Extra...)
+			}
+			return []*dns.Msg{stale, forged}
+		}
+		preStep = func() { s.clientQuery(evilZone, dns.TypeTXT) }
 	default:
 		s.mu.Unlock()
 		return "bad-shape", "-"
 	}
+	if mod != "" {
+		if inner, ok := s.scripts[lcn(trigger)]; ok {
+			s.scripts[lcn(trigger)] = func(q dns.Question, honest *dns.Msg) *dns.Msg {
+				m := inner(q, honest)
+				switch {
+				case strings.HasPrefix(mod, "nx"):
+					m.Rcode = dns.RcodeNameError
+				case strings.HasPrefix(mod, "sf"):
+					m.Rcode = dns.RcodeServerFailure
+				case strings.HasPrefix(mod, "rf"):
+					m.Rcode = dns.RcodeRefused
+				case strings.HasPrefix(mod, "yx"):
+					m.Rcode = dns.RcodeYXDomain
+				}
+				if strings.HasSuffix(mod, "soa") {
+					m.Ns = append(m.Ns, rrSOA(evilZone))
+				}
+				return m
+			}
+		}
+	}
 	s.mu.Unlock()
+	if preStep != nil {
+		preStep()
+	}
 	var r *dns.Msg
 	var or string
 	if oInside(victimZone, lcn(trigger)) {
@@ -870,6 +1014,16 @@ func (s *sysState) attack(shape string, k int) (string, string) {
 			}
 		}
 	}
+	if shape == "race-cached-delegation" && or == "ok" {
+		// the referral came from the servers of evil.co.test.: glue for a name server of the sibling
+		// zone victim.co.test. is outside the delegating zone and must not have been taken
+		v4, _ := resolver.VerifC07GlueCached(s.p.Resolver, "ns1."+victimCoZone)
+		for _, a := range v4 {
+			if ad, ok := netip.AddrFromSlice(s.ecIP); ok && ad.Unmap() == a {
+				or = fail("l3/attack/glue-bailiwick-widened-after-cached-delegation-hit", "host=ns1.%s addr=%s (planted by the servers of %s)", victimCoZone, a, evilCoZone)
+			}
+		}
+	}
 	return replySummary(r) + " 2nd: " + replySummary(r2), or
 }
 
@@ -879,6 +1033,10 @@ var allShapes = []string{
 	"nx-soa-victim", "nodata-extra",
 	"ref-self", "ref-up", "ref-root", "ref-side", "ref-mixed", "ref-class", "ref-offpath",
 	"glue-oob", "glue-strsuffix", "glue-notns", "glue-loop", "glue-local",
+	"cname-forged.nxsoa", "cname-forged.nx", "cname-forged.sf", "cname-forged.sfsoa", "ans-a.nxsoa", "ans-ns.nxsoa", "ans-dname.nxsoa",
+	"sig-cname-forged.nxsoa", "ans-a.yxsoa", "cname-forged-ghost.nxsoa", "ans-foreign-only.nxsoa",
+	"race-cached-delegation",
+	"pool-stale-then-forged", "pool-stale-then-forged-rightid", "pool-stale-then-referral",
 	"nsaddr-extra", "nsaddr-extra-first", "nsaddr-only-foreign", "nsaddr-cname-forged", "nsaddr-extra-tcp",
 	"tcp-honest", "tcp-wrongq-glue", "tcp-wrongq-glue-tc", "tcp-wrongq-glue-tc-sf", "tcp-wrongq-answer", "tcp-wrongq-answer-tc",
 	"tcp-wrongtype-tc", "tcp-noq-tc", "tcp-twoq-tc", "tcp-wrongid", "tcp-wrongid-tc",
@@ -893,7 +1051,7 @@ func execL3(f []string) vlib.Res {
 		if len(f) > 3 {
 			qmin = vlib.Atoi(f[3])
 		}
-		sysNew(f[2], qmin, len(f) > 4 && f[4] == "sec")
+		sysNew(f[2], qmin, len(f) > 4 && strings.HasPrefix(f[4], "sec"), len(f) > 4 && strings.HasSuffix(f[4], "+ka"))
 		return vlib.Res{Impl: "ok", Oracle: "-"}
 	case "close":
 		sysClose()
